@@ -6,7 +6,7 @@ use std::{
 };
 
 use nom::{
-    IResult,
+    Err as NomErr, IResult,
     branch::alt,
     bytes::streaming::{tag, take, take_until, take_while, take_while1},
     character::{
@@ -14,6 +14,7 @@ use nom::{
         streaming::{char, digit1, newline},
     },
     combinator::{cut, map, map_res, opt},
+    error::{Error as NomError, ErrorKind},
     sequence::{delimited, separated_pair, terminated, tuple},
 };
 
@@ -144,7 +145,14 @@ fn field_value(i: &[u8]) -> IResult<&[u8], &[u8]> {
 
 /// Recognize the header of a binary section
 fn binary_prefix(i: &[u8]) -> IResult<&[u8], usize> {
-    delimited(tag("binary: "), number, newline)(i)
+    let (remaining, digits) = delimited(tag("binary: "), digit1, newline)(i)?;
+
+    // A length that does not fit is an invalid message. It must not fall through to the key-value
+    // parser, which would turn the header into a regular field and the payload into lines.
+    match from_utf8(digits).ok().and_then(|d| d.parse().ok()) {
+        Some(length) => Ok((remaining, length)),
+        None => Err(NomErr::Failure(NomError::new(i, ErrorKind::TooLarge))),
+    }
 }
 
 /// Recognize a binary field
